@@ -57,6 +57,13 @@ type sStream struct {
 	cancel   context.CancelFunc
 	inflight int32
 	jobs     atomic.Pointer[beacon.VerifJobChan]
+	cbid     string
+	// wait hint only: jobs the store should have queued for this stream's channel (one per Put issued while its
+	// channel was the one registered under cbid, one for a close signal) against callbacks entered. It never changes
+	// what is observed, only how long deliver waits before it answers "none".
+	expected int32
+	entered  int32
+	sut      *streamSUT
 	live     bool
 	returned bool
 }
@@ -89,8 +96,13 @@ func (g *gatingStore) Cursor(ctx context.Context, fn func(context.Context, chain
 
 func (g *gatingStore) AddCallback(id string, fn beacon.CallbackFunc) {
 	g.s.gate("gate-register")
+	if old := g.s.sut.owner(id); old != nil {
+		atomic.AddInt32(&old.expected, 1) // the close signal
+	}
+	g.s.cbid = id
 	g.CallbackStore.AddCallback(id, func(b *common.Beacon, closed bool) {
 		atomic.AddInt32(&g.s.inflight, 1)
+		atomic.AddInt32(&g.s.entered, 1)
 		defer atomic.AddInt32(&g.s.inflight, -1)
 		fn(b, closed)
 	})
@@ -234,6 +246,20 @@ func newStreamSUT(backend string, chained bool, n int, raw bool) *streamSUT {
 	return c
 }
 
+// owner is the stream whose job channel is the one currently registered under id, if any.
+func (c *streamSUT) owner(id string) *sStream {
+	cur := beacon.VerifJobChanOf(c.top, id)
+	if cur == nil {
+		return nil
+	}
+	for _, s := range c.streams {
+		if cur.Same(s.jobs.Load()) {
+			return s
+		}
+	}
+	return nil
+}
+
 // kill ends a stream's goroutines whatever gate they are in.
 func (c *streamSUT) kill(s *sStream) bool {
 	if s.returned {
@@ -340,12 +366,38 @@ func (s *sStream) await(prev string) string {
 	}
 }
 
+// step releases the pending gate (which must be of kind want, if given) and runs to the next one.
+func (s *sStream) step(want string) string {
+	if s.pending == nil || (want != "" && s.pending.kind != want) {
+		return "bad-state"
+	}
+	prev := s.pending.kind
+	s.pending = nil
+	s.rel <- nil
+	return s.await(prev)
+}
+
+// scanstep is step restricted to the scan phase; once the cursor is closed it does nothing.
+func (s *sStream) scanstep() string {
+	if s.pending == nil {
+		return "bad-state"
+	}
+	switch s.pending.kind {
+	case "gate-open", "send":
+		return s.step("")
+	case "gate-register":
+		return "noop"
+	}
+	return "bad-state"
+}
+
 func (s *sStream) quiescent() bool {
 	if s.returned || !s.live {
 		return len(s.ev) == 0
 	}
 	chk := func() bool {
-		return len(s.ev) == 0 && s.jobs.Load().Len() == 0 && atomic.LoadInt32(&s.inflight) == 0
+		return len(s.ev) == 0 && s.jobs.Load().Len() == 0 && atomic.LoadInt32(&s.inflight) == 0 &&
+			atomic.LoadInt32(&s.entered) >= atomic.LoadInt32(&s.expected)
 	}
 	if !chk() {
 		return false
@@ -368,7 +420,21 @@ func (s *sStream) deliver(rel error) string {
 				s.sent = append(s.sent, e.b)
 				s.rel <- rel
 				if rel != nil {
-					return showSend(e) + " " + s.await("send")
+					// the client is gone: whatever the worker still tries to send fails as well
+					for i := 0; i < 100000; i++ {
+						select {
+						case e2 := <-s.ev:
+							if e2.kind == "returned" {
+								s.returned = true
+								return showSend(e) + " returned " + classifyStreamErr(e2.err)
+							}
+							if e2.kind == "send" {
+								s.rel <- rel
+							}
+						case <-time.After(5 * time.Second):
+							return showSend(e) + " stuck"
+						}
+					}
 				}
 				return showSend(e)
 			}
@@ -379,6 +445,9 @@ func (s *sStream) deliver(rel error) string {
 			return "none"
 		}
 		if time.Now().After(deadline) {
+			if len(s.ev) == 0 && s.jobs.Load().Len() == 0 && atomic.LoadInt32(&s.inflight) == 0 {
+				return "none" // fewer callbacks than the hint expected: nothing is coming
+			}
 			return "stuck"
 		}
 		time.Sleep(100 * time.Microsecond)
@@ -402,6 +471,9 @@ func parseAddr(a string) net.Addr {
 //	wait                                     for a blocked put                                done | still-blocked
 //	start <sid> <addr> <from> <sync|public>  SyncChain goroutine, stopped before Last         ok
 //	step <sid>                               release the current gate, run to the next one    started | send … | scan-end | registered | returned <e>
+//	begin | scanstep | register <sid>        step, but only from the gate before Last / inside the scan (noop once the
+//	                                         cursor is closed) / before AddCallback; scanall = scanstep until the scan ends;
+//	                                         drain = deliver until nothing is coming
 //	failstep <sid>                           the pending Send fails                           returned send-error
 //	deliver <sid>                            acknowledge+release the next live Send           send … | none | returned <e>
 //	faildeliver <sid>                        the next live Send fails                         send … returned send-error
@@ -433,7 +505,7 @@ func streamEngine(args []string, in *bufio.Scanner, out *bufio.Writer) {
 			}
 			var s *sStream
 			switch f[0] {
-			case "step", "failstep", "deliver", "faildeliver", "cancel", "sent", "qlen":
+			case "step", "failstep", "deliver", "faildeliver", "cancel", "sent", "qlen", "begin", "scanstep", "scanall", "register", "drain":
 				s = c.streams[f[1]]
 				if s == nil {
 					return "bad-state"
@@ -446,6 +518,11 @@ func streamEngine(args []string, in *bufio.Scanner, out *bufio.Writer) {
 				}
 				r := c.head + 1
 				done := make(chan error, 1)
+				for _, s := range c.streams {
+					if s.cbid != "" && c.owner(s.cbid) == s {
+						atomic.AddInt32(&s.expected, 1)
+					}
+				}
 				go func() { done <- c.top.Put(c.ctx, streamBeacon(r)) }()
 				select {
 				case err := <-done:
@@ -478,7 +555,7 @@ func streamEngine(args []string, in *bufio.Scanner, out *bufio.Writer) {
 					return "bad-state"
 				}
 				from, _ := strconv.ParseUint(f[3], 10, 64)
-				s = &sStream{sid: f[1], ev: make(chan sEvent, 64), rel: make(chan error)}
+				s = &sStream{sid: f[1], ev: make(chan sEvent, 64), rel: make(chan error), sut: c}
 				ctx, cancel := context.WithCancel(peer.NewContext(context.Background(), &peer.Peer{Addr: parseAddr(f[2])}))
 				s.cancel = cancel
 				c.streams[f[1]] = s
@@ -507,13 +584,39 @@ func streamEngine(args []string, in *bufio.Scanner, out *bufio.Writer) {
 					return "stuck"
 				}
 			case "step":
-				if s.pending == nil {
+				return s.step("")
+			case "begin":
+				return s.step("gate-last")
+			case "register":
+				return s.step("gate-register")
+			case "scanstep":
+				return s.scanstep()
+			case "scanall":
+				if s.pending != nil && s.pending.kind == "gate-register" {
+					return "noop"
+				}
+				var outs []string
+				for i := 0; i < 100000; i++ {
+					r := s.scanstep()
+					outs = append(outs, r)
+					if !strings.HasPrefix(r, "send ") {
+						break
+					}
+				}
+				return strings.Join(outs, " ; ")
+			case "drain":
+				if s.pending != nil {
 					return "bad-state"
 				}
-				prev := s.pending.kind
-				s.pending = nil
-				s.rel <- nil
-				return s.await(prev)
+				var outs []string
+				for i := 0; i < 100000; i++ {
+					r := s.deliver(nil)
+					outs = append(outs, r)
+					if !strings.HasPrefix(r, "send ") {
+						break
+					}
+				}
+				return strings.Join(outs, " ; ")
 			case "failstep":
 				if s.pending == nil || s.pending.kind != "send" {
 					return "bad-state"
